@@ -35,7 +35,7 @@ class CPrinter:
         """contracts: name(mangled or plain) -> list of clause strings (verbatim __CPROVER_...(..))
         externs: set of plain function names that are NOT printed with a body (callee by contract)"""
         self.w = world
-        self.contracts = contracts or {}
+        self.contracts = contracts if contracts is not None else {}
         self.externs = set(externs or ())
         self.done = {}
         self.order = []
@@ -45,6 +45,8 @@ class CPrinter:
         self.rules = {}
         self.used_libm = set()
         self.extern_mangled = {}
+        self.ghost_decls = {}
+        self.ghost_fns = set()
         self.file = None
 
     def fire(self, r):
@@ -439,10 +441,30 @@ class CPrinter:
             return '"%s"' % e.value
         raise PrintError('expression %s not printable' % k.__name__)
 
+    def ghost(self, name, e, env, cty='double'):
+        # the value a pure callee returns on the (unchanged, const) model: a ghost constant
+        lits = []
+        for a in e.args:
+            if isinstance(a, Num) and not a.isfloat:
+                lits.append(str(a.value))
+            elif isinstance(a, Id) and env.get(a.name, ('', ''))[1] == 'obj':
+                continue
+            else:
+                raise PrintError('ghost call %s with non-literal argument' % name)
+        g = 'gm2v_ghost_' + name.replace('::', '__') + ''.join('_' + l for l in lits)
+        self.fire('callee->ghost-value')
+        if g not in self.ghost_decls:
+            self.ghost_decls[g] = '%s %s;' % (cty, g)
+        return g
+
     def call(self, e, env):
+        if isinstance(e.f, Member) and isinstance(e.f.e, Id) and env.get(e.f.e.name, ('', ''))[1] == 'obj':
+            return self.ghost(e.f.name, e, env)
         if not isinstance(e.f, Id):
             raise PrintError('member/indirect call not printable')
         s = strip_ns(e.f.name)
+        if s in self.ghost_fns or s.split('::')[-1] in self.ghost_fns:
+            return self.ghost(s.split('::')[-1], e, env)
         args = [self.expr(a, env) for a in e.args]
         if s.startswith('std::numeric_limits'):
             what = s.split('::')[-1]
@@ -489,6 +511,7 @@ class CPrinter:
             if g:
                 out.append(g[0])
         out.extend(self.hoisted)
+        out.extend(self.ghost_decls.values())
         out.append(extra_decls)
         # prototypes first
         for m in self.order:
